@@ -69,6 +69,7 @@ Atoms == {"ALPHA", "CMT", "M1", "IRMAJ", "IR1", "KEY", "OWNER", "ADMIN", "X", "A
 Same(a, cls, n) ==
   IF a \in {"ALPHA", "CMT"} /\ AlphaIsCmt(n) THEN {"ALPHA", "CMT"}
   ELSE IF a \in {"KEY", "IR1"} /\ cls = "ir-key" THEN {"KEY", "IR1"}      \* audit.put: From is designated key 0
+  ELSE IF a \in {"KEY", "IR1"} /\ cls = "ir-key-last" /\ n = 1 THEN {"KEY", "IR1"}   \* the last designated key is key 0
   ELSE IF a \in {"KEY", "M1"} /\ cls = "own-alphabet-node" /\ n = 1 THEN {"KEY", "M1"}
   ELSE IF a \in {"KEY", "M1"} /\ cls \in {"key@m1", "key+alphabet@m1"} THEN {"KEY", "M1"}   \* the named key is member 0's
                                                     \* alphabet.emit: the contract's index is n-1
@@ -79,7 +80,7 @@ Norm(S, cls, n) == UNION {Same(a, cls, n) : a \in S}
 (***************************************************************************)
 (* Authorisation classes. S is a normalised signer set.                    *)
 (***************************************************************************)
-Classes == {"key@m1", "key+alphabet@m1", "stored-key", "candidate-or-stored-key", "calling-contract", "alphabet", "committee", "alphabet-role-majority", "key+alphabet", "key", "ir-key",
+Classes == {"key@m1", "key+alphabet@m1", "stored-key", "candidate-or-stored-key", "calling-contract", "alphabet", "committee", "alphabet-role-majority", "key+alphabet", "key", "ir-key", "ir-key-last",
             "holder-or-caller", "holder-or-alphabet", "nns-owner", "nns-owner+key", "nns-admin", "nns-parent",
             "own-alphabet-node", "candidate-or-alphabet", "signatures-in-arguments",
             "gas-only-callback", "gas-or-neo-callback", "none", "never", "safe"}
@@ -93,6 +94,7 @@ Sufficient(cls, S) ==
     [] cls = "key@m1"                  -> "KEY" \in S
     [] cls = "key+alphabet@m1"         -> "KEY" \in S /\ "ALPHA" \in S
     [] cls = "ir-key"                  -> "KEY" \in S
+    [] cls = "ir-key-last"             -> "KEY" \in S
     [] cls = "holder-or-caller"        -> "KEY" \in S
     [] cls = "calling-contract"        -> "VIACALLER" \in S
     [] cls = "holder-or-alphabet"      -> "KEY" \in S \/ "ALPHA" \in S
@@ -168,6 +170,8 @@ CoreMethods == {
   \* ---- audit ----
   Mt("audit", "put", 1, "", "ir-key", F, St),
   Mt("audit", "put", 1, "outsider", "never", F, {}),       \* From is not a designated key
+  Mt("audit", "put", 1, "other", "ir-key-last", F, St),            \* From is ANOTHER designated key (the last one): the witness of
+                                                           \* designated key 0 (IR1) or of their majority must not do
   Upd("audit", "committee"),
   Sf("audit", "get", 1), Sf("audit", "list", 0), Sf("audit", "listByCID", 2), Sf("audit", "listByEpoch", 1),
   Sf("audit", "listByNode", 3), Sf("audit", "version", 0),
@@ -433,7 +437,7 @@ NeoSets == {{"VIANEO", "KEY"}, {"VIANEO", "X"}}
 ViaSets == {{"VIACALLER"}, {"VIACALLER", "X"}, {"VIACALLER", "KEY"}, {"VIACALLER", "CMT"}}
 Everybody == {"ALPHA", "CMT", "M1", "IRMAJ", "IR1", "X"}
 
-UsesKey(cls) == cls \in {"key@m1", "key+alphabet@m1", "key+alphabet", "key", "ir-key", "holder-or-caller", "holder-or-alphabet",
+UsesKey(cls) == cls \in {"key@m1", "key+alphabet@m1", "key+alphabet", "key", "ir-key", "ir-key-last", "holder-or-caller", "holder-or-alphabet",
                          "own-alphabet-node", "candidate-or-alphabet", "candidate-or-stored-key", "never"}
 UsesNNS(cls) == cls \in {"nns-owner", "nns-owner+key", "nns-admin", "nns-parent"}
 
